@@ -96,6 +96,16 @@ CLAIMED["C09"] = {
             "wrapping). D-15 (tags not protected) was repaired (fix: 70efe46).",
     "design": "DESIGN.md §5 C09",
 }
+CLAIMED["C06"] = {
+    "text": "Coq: the whole word splitter / tag handling / wrapper stack is modelled (regexes translated from source) and tied by "
+            "correspondence; theorems: a whitespace-free non-empty piece (each placeholder) lies inside exactly one token of the "
+            "whitespace split; lines partition the word list (no word is ever cut); tag/block preprocessing only inserts empty lines and "
+            "afterwards no tag-only line touches a list/table line. On the implementation: every inserted construct intact on one "
+            "line for widths 1..88 in both modes, adjacency/separation of tags, tag-delimited lists/tables stay lists/tables with blank "
+            "lines and are a fixpoint.",
+    "note": "Placeholder restoration (str.replace loop) is modelled and tested, not proved. Known finding D-13 (separated tags merged).",
+    "design": "DESIGN.md §5 C06",
+}
 PENDING_REASON = "check not built yet in this revision (work in progress; see DESIGN.md §7 staging)"
 
 def main():
